@@ -213,6 +213,9 @@ func runScheduled(c Case, o rec, opts runOpts) (pbt.Verdict, *sched) {
 	if msg := c.sanitize(); msg != "" {
 		return pbt.Bad("invalid case: %s", msg), nil
 	}
+	if opts.watchdog <= 0 {
+		opts.watchdog = 20 * time.Second
+	}
 	if o.o != nil {
 		o.o.Journal() // a panic in an engine-spawned goroutine would kill the process
 	}
@@ -358,6 +361,12 @@ func runScheduled(c Case, o rec, opts runOpts) (pbt.Verdict, *sched) {
 		}
 		if p.lateRegister {
 			o.label("window:follower-registered-after-leader-check")
+		}
+		if p.lateAtErr {
+			o.label("window:follower-registered-after-leader-finish_err")
+		}
+		if p.lateJoin {
+			o.label("window:subgraph-follower-resumed-after-leader-finished")
 		}
 		if p.spec.Script == scCancel {
 			if p.cancelled {
@@ -523,6 +532,13 @@ func oracle(c *Case, parts []*pstate, loads, prefetches []loadRec, o rec) []prob
 		}
 		if p.out.Dedup && (len(myLoads) > 0 || len(preBy[p.id]) > 0) {
 			add("", "p%d is reported as de-duplicated but did its own upstream work", p.id)
+		}
+		// the leader→follower side channel (SharedData) carries the state of the follower's own key
+		if p.out.Dedup && (p.w.sharedSet != 1 || p.w.sharedGot != "shared:"+p.key.String()) {
+			add("", "p%d (key %s) is a follower but SetDeduplicationData was called %d times, last with %q", p.id, p.key, p.w.sharedSet, p.w.sharedGot)
+		}
+		if !p.out.Dedup && p.w.sharedSet != 0 {
+			add("", "p%d (key %s) resolved on its own but was handed de-duplication data %q", p.id, p.key, p.w.sharedGot)
 		}
 		if !shares {
 			// mutations / subscriptions are never shared: every request does its own work
